@@ -89,6 +89,18 @@ func newC15RJQuerier(log *c15Log, ver gmsl.RoomVersion, s c15RJScen) *c15RJQueri
 	case "bad":
 		q.jr = c15TryBuild(bv, gmsl.ProtoEvent{SenderID: "@creator:local", RoomID: c15ReqRoom, Type: spec.MRoomJoinRules, StateKey: &empty, Depth: 3,
 			Content: spec.RawJSON(`{"join_rule":5}`)})
+	case "dup_public_then_restricted", "dup_restricted_then_public":
+		// join_rule repeated: the stored reading is the last occurrence
+		allow := []c15Obj{}
+		for _, r := range s.Allow {
+			allow = append(allow, c15Obj{"type": r.Type, "room_id": r.Room})
+		}
+		a, b := "public", "restricted"
+		if s.JoinRules == "dup_restricted_then_public" {
+			a, b = b, a
+		}
+		q.jr = c15TryBuild(bv, gmsl.ProtoEvent{SenderID: "@creator:local", RoomID: c15ReqRoom, Type: spec.MRoomJoinRules, StateKey: &empty, Depth: 3,
+			Content: spec.RawJSON(`{"allow":` + string(c15JSON(allow)) + `,"join_rule":"` + a + `","join_rule":"` + b + `"}`)})
 	default:
 		allow := []c15Obj{}
 		for _, r := range s.Allow {
@@ -585,6 +597,8 @@ func c15RJMuts() []c15RJMut {
 		{"join_rule knock", func(s *c15RJScen) { s.JoinRules = "knock" }},
 		{"join_rule knock_restricted", func(s *c15RJScen) { s.JoinRules = "knock_restricted" }},
 		{"join_rule Restricted", func(s *c15RJScen) { s.JoinRules = "Restricted" }},
+		{"join_rule twice: public then restricted", func(s *c15RJScen) { s.JoinRules = "dup_public_then_restricted" }},
+		{"join_rule twice: restricted then public", func(s *c15RJScen) { s.JoinRules = "dup_restricted_then_public" }},
 		{"pending err", func(s *c15RJScen) { s.Pending = "err" }},
 		{"pending yes", func(s *c15RJScen) { s.Pending = "yes" }},
 		{"power err", func(s *c15RJScen) { s.Power = "err" }},
